@@ -137,9 +137,9 @@ CHECKS = {
              "elements, other element types are assumed not to change overload resolution; g++ 12; nine view-forming operations "
              "that lose mutability from a mutable receiver and const_iterator::base() are recorded known findings"),
     "C12": dict(
-        text="Coq theorems (Properties_C12.v, 24, all ranks/extents/strides/operation sequences/index tuples/iterator traces): member_cast addresses exactly byte offsetof(member) of each source element with the source's shape (C12_member_cast_addr/_from_root); reinterpret_array_cast<U>() keeps every element's address and shape, incl. the separate rank-1 code, which is also proved for any index base (C12_reinterpret_addr/_same_size/_rank1_any_base); reinterpret_array_cast<U>(n) appends extension [0,n) and element (idx,j) is at byte j*sizeof(U) of element idx (C12_reinterpret_extra_dim/_from_root); element_transformed has the source's shape, reads f(source element) at access time and writes through a reference-returning projection changing only that sub-object (C12_transformed, C12_transformed_write_through); static/const_array_cast, as_const and element_transformed keep layout and base on every view, and on every view reachable from a root over arbitrary index extensions the element read is f of the root element the documented index maps prescribe (C12_cast_identity, C12_identity_any_base); projections commute with every C01 operation (C12_compose, C12_compose_extra_dim, C12_compose_ops); the iterator of a projected view after any ++ -- += -= trace is at the computed position and at every position designates what indexing designates = the projection of the source's sub-view at that position, also through it[k] and std::reverse_iterator, for leading iterators (all four projection kinds; any index base for the casts that keep layout and base) and for the flat elements() iterators in canonical order (C12_projected_iterator_lead/_any_base/_flat); an array constructed or assigned from a view/projection of any index base is always defined, has the source's extensions including first indices (empty if the source has no elements) and element idx = conv(source element idx); array(first,last) restarts the leading index at 0, array(elements()) is the flat sequence (C12_convert_construct/_pview/_any_base/_based, C12_convert_iter_pair, C12_convert_flat); member_cast, reinterpret_array_cast<U>(n) and the non-const reinterpret_array_cast<U>() are excluded on views with a non-zero offset exactly where layout_t::scale asserts (C12_scale_offset_assertion). Tie: generated projection programs over struct and complex elements on zero-based and re-based roots: shape after every step, value and byte offset of &proj[idx], root words modified by writes, laziness, iterator walks (leading/row/flat/element-pointer, mutable and const, forwards and backwards) with every dereference compared with the model and with indexing, and arrays made through every converting constructor/assignment of array.hpp (view, array, array_ref, static_array, iterator-pair, flat-range, C-array, rank-0 sources; named/const/moved/temporary; implicit, explicit-only and explicit-assignable element types incl. complex<double>->complex<float>): extensions and elements.",
-        design_ref="5/C12", technique="Coq proof (scale lemmas on the C01 layout invariant, simulation through step_ok for composition, C02's iterator and mixed-radix lemmas lifted to projected views, C19's twin-program theorem for index bases, iterated next_canonical for the flat copy) + extracted-model vs library differential on projection programs (harness compiled per run in 23 parallel translation units against the tree under test), model-independent monitors (iterator vs indexing, it-begin vs token arithmetic, value = object at the printed address, accesses inside the root), three compile-time probes, regression corpus of 5.4k cases, sanitizer run and vm_compute cross-check in the thorough tier",
-        note="Coq 8.16.1 kernel; all 24 theorems print 'Closed under the global context'; addresses and extensions are proved, the identification of the object at an address with the member/sub-object and the numeric value of conv are the C++ object model / arithmetic and are observed (words compared), not proved; hand-written Gallina model tied to /repo by a sampled correspondence (generator distribution and the measured constructor-overload table in the evidence); element-pointer walks of transform_ptr are checked against a three-line expectation of the driver, not a Coq definition; member_cast / reinterpret_array_cast on views with non-zero offsets excluded from the generator (the library asserted offset == 0 there until 1b46e17; C12_scale_offset_assertion states the old exclusion, C20_scale_keeps_extension the repaired behaviour); rank 0 only for array-from-array conversions; raw pointers and transform_ptr only (C11 for others); no 64-bit overflow; g++ 12/libstdc++, x86-64 little endian; the two compile-time defects found here (const rank-1 transformed views could not be iterated; explicit-only element types from views of rank >= 2) are repaired in /repo (7a8161e, 9e89822; patches kept under notes/patches_C12)"),
+        text="Coq theorems (Properties_C12.v, 31, all ranks/extents/strides/index bases/operation sequences/index tuples/iterator traces; the model follows layout_t::scale as repaired in /repo 1b46e17: stride, offset and nelems scaled, two divisibility assertions): the assertions of scale are exactly den | stride*num and den | offset*num at every level, the offset one follows from the stride one on every well-formed layout and both hold whenever sizeof(U) divides sizeof(T) (C12_scale_assertions; the old offset==0 exclusion is recorded as C12_scale_old_code_refuted); on views with ANY index bases (negative, zero, positive) member_cast keeps the source's index ranges and sizes and designates byte offsetof(member) of the source element at the same index tuple, reinterpret_array_cast<U>() keeps ranges and every element's address (generic and rank-1 const& code), reinterpret_array_cast<U>(n) keeps the source ranges, adds the range [0,n) and puts element (idx,j) at byte j*sizeof(U) of element idx (C12_member_cast_any_base, C12_reinterpret_any_base, C12_reinterpret_extra_dim_any_base, C12_reinterpret_rank1_any_base), and on every view reachable from a root over arbitrary index extensions no assertion of these casts can fire, for every receiver kind, and element idx is the member/bytes of the root element the documented index maps prescribe (C12_member_cast/_reinterpret/_reinterpret_extra_dim_from_based_root); the zero-based statements with shape_agrees and containment (C12_member_cast_addr/_from_root, C12_reinterpret_addr/_same_size, C12_reinterpret_extra_dim/_from_root); element_transformed has the source's shape, reads f(source element) at access time and writes through a reference-returning projection changing only that sub-object (C12_transformed, C12_transformed_write_through); static/const_array_cast, as_const and element_transformed keep layout and base on every view, and on every re-based reachable view the element read is f of the root element the index maps prescribe (C12_cast_identity, C12_identity_any_base); projections commute with every C01 operation (C12_compose, C12_compose_extra_dim, C12_compose_ops); iterators of projected views after any ++ -- += -= trace are at the computed position and designate what indexing designates = the projection of the source's sub-view, also through it[k] and std::reverse_iterator, leading and flat (C12_projected_iterator_lead/_any_base/_flat); an array constructed or assigned from a view/projection of any index base is always defined, has the source's extensions including first indices and element idx = conv(source element idx); array(first,last) restarts the leading index at 0, array(elements()) is the flat sequence (C12_convert_construct/_pview/_any_base/_based, C12_convert_iter_pair, C12_convert_flat). Tie: generated projection programs over struct and complex elements; 55% of the roots over extensions with bases from -3..3 in every dimension, reindexed/blocked/rows/rotated views of them; every projection overload of array_ref.hpp through its const-lvalue, lvalue, xvalue and prvalue receivers (measured table by kind x receiver x rank class x sign of the source's bases in the evidence): extensions, sizes, strides after every step, value and byte offset of &proj[idx], root words modified by writes, laziness, iterator walks compared with the model and with indexing, and arrays made through every converting constructor/assignment of array.hpp: extensions and elements.",
+        design_ref="5/C12", technique="Coq proof (scale lemmas on the any-base layout invariant dim_okg/lay_okg with the zero-based C01 invariant as a corollary, C19's twin-program theorem for the from-root statements, simulation through step_ok for composition, C02's iterator and mixed-radix lemmas lifted to projected views, iterated next_canonical for the flat copy) + extracted-model vs library differential on projection programs (harness compiled per run in 23 parallel translation units against the tree under test), model-independent monitors (iterator vs indexing, it-begin vs token arithmetic, value = object at the printed address, accesses inside the root), three compile-time probes, regression corpus of 10.3k cases (4.9k of them projections of re-based sources through every receiver kind), sanitizer run and vm_compute cross-check in the thorough tier",
+        note="Coq 8.16.1 kernel; all 31 theorems print 'Closed under the global context'; addresses and extensions are proved, the identification of the object at an address with the member/sub-object and the numeric value of conv are the C++ object model / arithmetic and are observed (words compared), not proved; hand-written Gallina model tied to /repo by a sampled correspondence (generator distribution, overload map and receiver x base table in the evidence); the commutation and iterator theorems for the scaling projections are stated for zero-based sources (for re-based ones the invariant lay_okg is proved to be preserved and the tie exercises post-operations, walks and conversions); element-pointer walks of transform_ptr are checked against a three-line expectation of the driver, not a Coq definition; const& receivers of element_transformed(member pointer / reference-returning f) and of blas::real/imag/real_doubled are not reached (the latter do not compile for a const source); rank 0 only for array-from-array conversions; raw pointers and transform_ptr only (C11 for others); no 64-bit overflow; g++ 12/libstdc++, x86-64 little endian; no open C12 finding; a const-correctness defect of member_cast/element_transformed on read-only views found on the way is reported to C16 with patch notes/patches_C12/0004"),
     "C11": dict(
         text="Theorems C11_pointer_parametric(+_steps), C11_storage_parametric, C11_compare_parametric (Coq, for every pointer type "
              "satisfying the torsor laws padd/pdiff/peq, every root, extents, rank, index base and every program of view "
